@@ -1,13 +1,13 @@
 """C17 — a stricter confidence setting never makes a detector alarm earlier."""
 import numpy as np
 from . import coqgen as G
-from . import c01
+from . import c01, c06
 from .common import *
 from .detectors import SPECS, gen_case
 
 ID = "C17"
-PROPS = ["Prop_C17", "Prop_C17_adwin"]
-IMPORTS = c01.IMPORTS
+PROPS = ["Prop_C17", "Prop_C17_adwin", "Prop_C17_lfr", "Prop_C17_nndvi", "Prop_C17_kdq"]
+IMPORTS = c01.IMPORTS + "\nFrom MV Require Import Corr_C17."
 CORR_NAME = "Corr_C17: the models whose monotonicity theorems are proved (DDM, EDDM, STEPD, CUSUM, PageHinkley) and ADWIN / LFR = the implementation, under both settings of every pair"
 TRUSTED = ["Coq 8.16.1 kernel + vm_compute + primitive floats",
            "MonoLaws (order / monotonicity laws of the arithmetic) are hypotheses of the theorems: proved for the reals (NumLaws.MonoLawsR), assumed for IEEE doubles on non-NaN values",
@@ -120,16 +120,26 @@ def coq_term(case, obs):
     """both runs of the pair are reproduced by the model of the detector (where one exists)"""
     if "__exception__" in obs:
         return None
-    terms = []
+    terms, runs = [], []
     for w in ("loose", "strict"):
         v = variant(case, w)
         mod, c = c01.delegate(v)
         if mod is None:
             return None
-        terms.append(mod.coq_term(c, mod.run_impl(c)))
+        o = mod.run_impl(c)
+        runs.append((c, o))
+        terms.append(mod.coq_term(c, o))
     if any(t is None for t in terms):
         return None
-    return f"({terms[0]}) && ({terms[1]})"
+    t = f"({terms[0]}) && ({terms[1]})"
+    if case["det"] == "LinearFourRates" and case["kind"] == "drift" and all("rows" in o for _, o in runs):
+        # hypothesis of C17_lfr_first_drift_monotone on the logged oracle rows of the two runs, up to and
+        # including the looser run's first drift (afterwards the looser run has been reset)
+        fl = first([r["ds"] for r in runs[0][1]["rows"]])
+        n = len(runs[0][0]["pairs"]) if fl is None else fl + 1
+        xs = [G.lst([c06.input_term(yt, yp, r) for (yt, yp), r in list(zip(c["pairs"], o["rows"]))[:n]]) for c, o in runs]
+        t += f" && chk_lfr_pair {xs[0]} {xs[1]}"
+    return t
 
 
 def nontrivial(case, obs):
